@@ -151,7 +151,8 @@ def clause3_reject(ctx, P, cg):
     fc = P.fn("http_connection.c:free_connection")
     seq = [i for i in fc.all_insts() if i.op == "call"]
     names = [(P.srcname_of(i.callee) if i.callee else "icall:" + (P.term(fc, i.ind)[1][3] if P.term(fc, i.ind)[0] == "load" else "?")) for i in seq]
-    ctx.ob("C13.3 R-ORDER", fc, "close-then-free", names == ["icall:close", "cjet_free"],
+    core = [n_ for n_ in names if n_ in ("icall:close", "cjet_free", "free")]
+    ctx.ob("C13.3 R-ORDER", fc, "close-then-free", core == ["icall:close", "cjet_free"],
            "free_connection must close the reader and then free the connection (found %s)" % names)
     ctx.floor("C13.3 R-TABLE", 3)
 
